@@ -427,10 +427,30 @@ func ruleRec(c *Ctx) {
 			strong(f)
 		}
 	}
+	// a listed function that was split into a family (removeCount -> removeDirectCount + removeIndirectCount)
+	// keeps its place in the listed cycle
+	canon := map[string]string{}
+	for listed := range recTable {
+		for _, x := range strings.Split(listed, " + ") {
+			if fam := p.FnFamily(x); len(fam) > 1 {
+				for _, f := range fam {
+					canon[fnName(f)] = x
+				}
+			}
+		}
+	}
 	for _, comp := range sccs {
 		var names []string
+		seenName := map[string]bool{}
 		for _, f := range comp {
-			names = append(names, fnName(f))
+			nm := fnName(f)
+			if c0, ok := canon[nm]; ok {
+				nm = c0
+			}
+			if !seenName[nm] {
+				seenName[nm] = true
+				names = append(names, nm)
+			}
 		}
 		sort.Strings(names)
 		key := strings.Join(names, " + ")
@@ -458,7 +478,7 @@ func ruleRec(c *Ctx) {
 				}
 				extrasOK := true
 				for _, f := range comp {
-					if lm[fnName(f)] {
+					if lm[fnName(f)] || lm[canon[fnName(f)]] {
 						continue
 					}
 					chain := p.ownerChain(f)
@@ -483,7 +503,7 @@ func ruleRec(c *Ctx) {
 			all := true
 			owner := ""
 			for _, f := range comp {
-				if listed[fnName(f)] {
+				if listed[fnName(f)] || listed[canon[fnName(f)]] {
 					continue
 				}
 				o, owned := p.ownedByOutside(f, comp, func(nm string) bool { return listed[nm] })
